@@ -157,31 +157,31 @@ end
 
 -- `Expr::substitute` (untyped): mapped unknowns are replaced by the value's expression
 mutual
-def Expr.subst (m : Mapper) : Expr → Expr
+def Expr.substUnk (m : Mapper) : Expr → Expr
   | .lit p => .lit p
   | .var v => .var v
   | .slot s => .slot s
   | .unknown n ty => match lookupKV m n with
     | some v => v.toExpr
     | none => .unknown n ty
-  | .ite c t e => .ite (c.subst m) (t.subst m) (e.subst m)
-  | .and a b => .and (a.subst m) (b.subst m)
-  | .or a b => .or (a.subst m) (b.subst m)
-  | .unaryApp op a => .unaryApp op (a.subst m)
-  | .binaryApp op a b => .binaryApp op (a.subst m) (b.subst m)
-  | .call fn args => .call fn (Expr.substList m args)
-  | .getAttr e a => .getAttr (e.subst m) a
-  | .hasAttr e a => .hasAttr (e.subst m) a
-  | .like e p => .like (e.subst m) p
-  | .is e ty => .is (e.subst m) ty
-  | .set xs => .set (Expr.substList m xs)
-  | .record kvs => .record (Expr.substKVs m kvs)
-def Expr.substList (m : Mapper) : List Expr → List Expr
+  | .ite c t e => .ite (c.substUnk m) (t.substUnk m) (e.substUnk m)
+  | .and a b => .and (a.substUnk m) (b.substUnk m)
+  | .or a b => .or (a.substUnk m) (b.substUnk m)
+  | .unaryApp op a => .unaryApp op (a.substUnk m)
+  | .binaryApp op a b => .binaryApp op (a.substUnk m) (b.substUnk m)
+  | .call fn args => .call fn (Expr.substUnkList m args)
+  | .getAttr e a => .getAttr (e.substUnk m) a
+  | .hasAttr e a => .hasAttr (e.substUnk m) a
+  | .like e p => .like (e.substUnk m) p
+  | .is e ty => .is (e.substUnk m) ty
+  | .set xs => .set (Expr.substUnkList m xs)
+  | .record kvs => .record (Expr.substUnkKVs m kvs)
+def Expr.substUnkList (m : Mapper) : List Expr → List Expr
   | [] => []
-  | x :: xs => x.subst m :: Expr.substList m xs
-def Expr.substKVs (m : Mapper) : List (String × Expr) → List (String × Expr)
+  | x :: xs => x.substUnk m :: Expr.substUnkList m xs
+def Expr.substUnkKVs (m : Mapper) : List (String × Expr) → List (String × Expr)
   | [] => []
-  | (k, x) :: xs => (k, x.subst m) :: Expr.substKVs m xs
+  | (k, x) :: xs => (k, x.substUnk m) :: Expr.substUnkKVs m xs
 end
 
 /-! ### outcome of partial interpretation: `Result<PartialValue>` plus the model's own two outcomes -/
@@ -653,7 +653,7 @@ def PContext.substitute (c : PContext) (m : Mapper) : Except ReauthErr PContext 
   match c with
   | .value kvs => .ok (.value kvs)
   | .residual kvs =>
-    match rinterp defaultFuel (Expr.subst m (.record kvs)) with
+    match rinterp defaultFuel (Expr.substUnk m (.record kvs)) with
     | .val (.record r) => .ok (.value r)
     | .res (.record r) => .ok (.residual r)
     | .err _ => .error .concretization
